@@ -37,7 +37,7 @@ func c16enumCount() int64 { return 1024 + 1024 + 65536 + int64(len(c16dates)) + 
 
 func (c16) Runs(tier string) int64 {
 	if tier == "thorough" {
-		return c16enumCount() + 1500000
+		return c16enumCount() + 20000000
 	}
 	return c16enumCount() + 60000
 }
